@@ -355,6 +355,7 @@ func runRepl(t *testing.T, c *Case) *Outcome {
 		o.Fingerprint = fingerprintSteps(c)
 	}()
 
+	pendingOps := 0
 	origins := int(c.knob("origins", int64(n))) // C08: replicas [0,origins) produce, the rest only receive
 	bulkMany, collide := 0, 0
 	touched := map[string]int{}
@@ -372,7 +373,34 @@ func runRepl(t *testing.T, c *Case) *Outcome {
 		}
 		if isOp {
 			r := w.reps[s.C]
-			newMsgs := r.drain()
+			var newMsgs [][]byte
+			if c.Profile == "bcast" && s.C == 0 && c.knob("drain_every", 1) > 1 {
+				// leave the broadcasts in the real queue until the batch is complete
+				pendingOps++
+				lastOp := true
+				for _, later := range c.Steps[si+1:] {
+					if later.C == 0 && later.K != "gossip" && later.K != "lose" && later.K != "pushpull" && later.K != "fresh" && later.K != "deliver" {
+						lastOp = false
+					}
+				}
+				logf("%d %s c=%d queued", si, s.K, s.C)
+				if pendingOps < int(c.knob("drain_every", 1)) && !lastOp {
+					continue
+				}
+				pendingOps = 0
+				for _, mb := range r.drain() {
+					w.reps[1].st.Distributor().NotifyMsg(mb)
+				}
+				after := listing(r.st)
+				if a, b := diffLists(listing(w.reps[1].st), after); len(a)+len(b) > 0 {
+					o.violate(prop, "receiver-differs", si, 0, map[string]string{"op": "batch", "kinds": kindsOf(append(a, b...))},
+						"after a batch of changes was drained from the origin's queue into the receiver it lists %v that the origin does not, and lacks %v", a, b)
+					return o
+				}
+				o.probe("batched_drains")
+				continue
+			}
+			newMsgs = r.drain()
 			logf("%d %s c=%d -> %d broadcasts %s", si, s.K, s.C, len(newMsgs), hashStrings(listing(r.st)))
 			// local effect must match the model on every profile (sanity of both)
 			if c.Profile != "converge" {
@@ -816,6 +844,9 @@ func genC08(r *Rand, tier, profile string) *Case {
 
 func genC09(r *Rand, tier, profile string) *Case {
 	c := &Case{Profile: "bcast", Knobs: map[string]int64{"replicas": 3}}
+	if r.Bool(0.4) {
+		c.Knobs["drain_every"] = int64(r.Range(2, 5)) // several changes inside one gossip interval
+	}
 	// replica 2 is a foreign peer whose entries are first replicated to A (0) and B (1)
 	nForeign := r.Intn(5)
 	for i := 0; i < nForeign; i++ {
